@@ -796,15 +796,16 @@ func FuzzTokenMutation(f *testing.F) {
 			f.Fatal(err)
 		}
 		for _, tk := range [][]byte{nt, rt} {
-			f.Add(tk, uint8(0), uint16(8*40), byte(1), []byte{})          // flip inside the sealed part
-			f.Add(tk, uint8(0), uint16(3), byte(0), []byte{})             // flip in the nonce
-			f.Add(tk, uint8(0), uint16(8*(len(tk)-1)), byte(0), []byte{}) // flip in the tag
-			f.Add(tk, uint8(1), uint16(len(tk)-1), byte(0), []byte{})     // truncate by one
-			f.Add(tk, uint8(1), uint16(nonceLen), byte(0), []byte{})      // nonce only
-			f.Add(tk, uint8(2), uint16(0), byte(0), []byte{0})            // append
-			f.Add(tk, uint8(3), uint16(40), byte(0x80), []byte{})         // set byte
-			f.Add(tk, uint8(4), uint16(33), byte(0), []byte{1, 2, 3})     // insert
-			f.Add(tk, uint8(5), uint16(0), byte(0), []byte{})             // other key only
+			f.Add(tk, uint8(0), uint16(8*40), byte(1), []byte{})             // flip inside the sealed part
+			f.Add(tk, uint8(0), uint16(3), byte(0), []byte{})                // flip in the nonce
+			f.Add(tk, uint8(0), uint16(8*(nonceLen-1)+7), byte(0), []byte{}) // flip the last nonce bit
+			f.Add(tk, uint8(0), uint16(8*(len(tk)-1)), byte(0), []byte{})    // flip in the tag
+			f.Add(tk, uint8(1), uint16(len(tk)-1), byte(0), []byte{})        // truncate by one
+			f.Add(tk, uint8(1), uint16(nonceLen), byte(0), []byte{})         // nonce only
+			f.Add(tk, uint8(2), uint16(0), byte(0), []byte{0})               // append
+			f.Add(tk, uint8(3), uint16(40), byte(0x80), []byte{})            // set byte
+			f.Add(tk, uint8(4), uint16(33), byte(0), []byte{1, 2, 3})        // insert
+			f.Add(tk, uint8(5), uint16(0), byte(0), []byte{})                // other key only
 		}
 	}
 	// hostile constants
@@ -845,6 +846,41 @@ func FuzzTokenMutation(f *testing.F) {
 			if mutated != nil {
 				_, _ = g.DecodeToken(mutated)
 			}
+			if len(tok) == 0 {
+				return
+			}
+			// Use the bytes as a multi-byte mutation instead: issue a genuine token here and xor tok over it
+			// starting at pos (wrapping), optionally followed by the single mutation. The result must not be
+			// accepted unless it is the genuine token again.
+			a := fuzzAddrs[int(kind>>4)%2]
+			var genuine []byte
+			if val&1 == 0 {
+				genuine, err = g.NewToken(a, 0)
+			} else {
+				genuine, err = g.NewRetryToken(a, cidOf(extra[:min(len(extra), 20)]), cidOf(tok[:min(len(tok), 20)]))
+			}
+			if err != nil {
+				t.Fatalf("issuing a token failed: %v", err)
+			}
+			overlaid := append([]byte(nil), genuine...)
+			for j, b := range tok {
+				overlaid[(int(pos)+j)%len(overlaid)] ^= b
+			}
+			class = "overlay"
+			if kind%6 == 1 { // and truncate
+				overlaid, _ = applyMutation(overlaid, nil, Mutation{Kind: "trunc", Pos: int(val)})
+				class = "overlay+trunc"
+			} else if kind%6 == 2 && len(extra) > 0 {
+				overlaid = append(overlaid, extra...)
+				class = "overlay+append"
+			}
+			if bytes.Equal(overlaid, genuine) {
+				return
+			}
+			if v := forgeOracle(g, overlaid, class, fuzzAddrs, vf.Scratch()); v != nil {
+				t.Fatalf("VIOLATION %s: %s (genuine %x)", v.Sig, v.Detail, genuine)
+			}
+			u.Class(class)
 			return
 		}
 		u.Class("base-genuine")
